@@ -15,10 +15,23 @@ GOENV = dict(os.environ, GOFLAGS="-mod=mod", GOPROXY="off", GOSUMDB="off", GOTOO
 from props import PROPS  # per-property configuration
 
 
-def sh(cmd, cwd=None, env=None, timeout=None, inp=None):
-    p = subprocess.run(cmd, cwd=cwd, env=env, stdout=subprocess.PIPE, stderr=subprocess.STDOUT,
-                       timeout=timeout, input=inp)
+def sh(cmd, cwd=None, env=None, timeout=None, inp=None, memlimit=None):
+    """Run a command; memlimit (bytes) caps its address space, so that a change to the library which
+    makes a render grow without bound ends in a crashed harness (reported), not in an exhausted machine."""
+    pre = None
+    if memlimit:
+        import resource
+        def pre():
+            resource.setrlimit(resource.RLIMIT_AS, (memlimit, memlimit))
+    try:
+        p = subprocess.run(cmd, cwd=cwd, env=env, stdout=subprocess.PIPE, stderr=subprocess.STDOUT,
+                           timeout=timeout, input=inp, preexec_fn=pre)
+    except subprocess.TimeoutExpired as e:
+        return 124, (e.stdout or b"").decode("utf-8", "replace") + "\n[timed out after %ss]" % timeout
     return p.returncode, p.stdout.decode("utf-8", "replace")
+
+
+HARNESS_MEM = 6 << 30    # address-space cap for the (non-race) harness: the largest stream needs well under 1 GiB
 
 
 class Lock:
@@ -229,7 +242,7 @@ def run_stream(pid, stream, seed, n, first, tag):
     os.makedirs(d)
     t0 = time.time()
     rc, out = sh([os.path.join(WORK, "harness"), "-mode", "gen", "-prop", stream, "-seed", str(seed),
-                  "-n", str(n), "-from", str(first), "-out", d], env=GOENV, timeout=3000)
+                  "-n", str(n), "-from", str(first), "-out", d], env=GOENV, timeout=3000, memlimit=HARNESS_MEM)
     res = {"dir": d, "stream": stream, "seed": seed, "n": n, "harness_rc": rc, "harness_out": out[-2000:],
            "divergences": [], "report": None}
     if rc != 0:
@@ -333,7 +346,7 @@ CREATING = ("case", "item", "newtable", "wrap", "rewrap", "newvia", "autonew", "
 def _replay_diff(stream, ops, d):
     """Run ops on the real library and the model; return (index of first differing op or None, go line, lean line)."""
     open(os.path.join(d, "ops.txt"), "w").write("\n".join(ops) + "\n")
-    rc, out = sh([os.path.join(WORK, "harness"), "-mode", "replay", "-in", os.path.join(d, "ops.txt"), "-out", d], env=GOENV, timeout=120)
+    rc, out = sh([os.path.join(WORK, "harness"), "-mode", "replay", "-in", os.path.join(d, "ops.txt"), "-out", d], env=GOENV, timeout=120, memlimit=HARNESS_MEM)
     if rc != 0:
         return None, "", "", ""
     with open(os.path.join(d, "lean.in"), "rb") as fin, open(os.path.join(d, "lean.out"), "wb") as fout:
@@ -409,7 +422,7 @@ def do_replay(pid, path):
     status = 0
     if r.get("ops"):
         open(os.path.join(d, "ops.txt"), "w").write("\n".join(r["ops"]) + "\n")
-        rc, out = sh([os.path.join(WORK, "harness"), "-mode", "replay", "-prop", r.get("stream", pid), "-in", os.path.join(d, "ops.txt"), "-out", d], env=GOENV)
+        rc, out = sh([os.path.join(WORK, "harness"), "-mode", "replay", "-prop", r.get("stream", pid), "-in", os.path.join(d, "ops.txt"), "-out", d], env=GOENV, timeout=600, memlimit=HARNESS_MEM)
         with open(os.path.join(d, "lean.in"), "rb") as fin, open(os.path.join(d, "lean.out"), "wb") as fout:
             subprocess.run([os.path.join(LEAN, ".lake", "build", "bin", "driver")], stdin=fin, stdout=fout)
         norm = lambda t: re.sub(r"(res2?=err):[^ ]*", r"\1", t)
